@@ -698,7 +698,9 @@ impl Sim {
                         }
                     } else if let Some(mut fut) = send_fut {
                         let probe0 = alloc_probe();
+                        crate::hang::poll_begin();
                         let r = catch_unwind(AssertUnwindSafe(|| fut.as_mut().poll(&mut cx)));
+                        crate::hang::poll_end();
                         if let (Some((t0, _)), Some((t1, _))) = (probe0, alloc_probe()) {
                             let d = t1.saturating_sub(t0);
                             let mut st = self.sh.st.lock().unwrap();
